@@ -150,7 +150,13 @@ def _work(spec, conn):
         sys.setrecursionlimit(10000)
         h = build(spec)
         if spec['kind'] == 'direct':
-            r = h()
+            try:
+                r = h()
+            except Exception as e:
+                # a z3x obligation re-executes the current source on solver terms; source that the term classes cannot execute is outside the encoding's reach:
+                # the honest answer is "cannot judge", never a violation and not a broken check
+                r = dict(verdict='INCONCLUSIVE', reason='encoding failure (the current source is not executable on terms): %s: %s' % (type(e).__name__, str(e)[:200]),
+                         trace=traceback.format_exc()[-800:])
             res.update(r)
         else:
             from vp import symx
